@@ -280,12 +280,42 @@ class KState:
 
     def _member_events_local(self, cls, m):
         names = {f["name"]: f for _c, f in self.fields(cls)}
-        ptrish = {n for n, f in names.items() if "*" in f.get("t", "") or "[" in f.get("t", "")}
+        ptrish = {n for n, f in names.items() if "*" in f.get("t", "") or "[" in f.get("t", "") or "unique_ptr" in f.get("t", "") or "shared_ptr" in f.get("t", "")}
         plans = self.plan_aliases(cls)
         ev = []
         b = tbf.body(m)
         tbf.link_parents(b)
         consumed = set()
+        # local pointers that name a buffer member (`T* const p = member;`, `= member.get()`, `= &member[0]`): what is done through them is done
+        # to the member
+        alias = {}
+        for v in walk(b):
+            if v.get("k") == "VarDecl" and kids(v) and ("*" in v.get("t", "") or "auto" in v.get("t", "")):
+                i0 = strip(kids(v)[0])
+                while i0.get("k") in ("CallExpr", "CXXMemberCallExpr") and tbf.callee_name(i0) in ("get", "data") and tbf.call_base(i0) is not None and not tbf.call_args(i0):
+                    i0 = strip(tbf.call_base(i0))
+                fr0 = KState.field_ref(i0, ptrish)
+                if fr0:
+                    alias[v["did"]] = fr0
+        _plain = KState.field_ref
+
+        def _aliased(n, names_):
+            r = _plain(n, names_)
+            if r is not None or not alias:
+                return r
+            n = strip(n)
+            while n is not None:
+                k_ = n.get("k")
+                if k_ == "DeclRefExpr":
+                    a_ = alias.get(n.get("did"))
+                    return a_ if a_ in names_ else None
+                if k_ in ("ArraySubscriptExpr",) or (k_ == "UnaryOperator" and n.get("op") in ("*", "&")) or (k_ == "BinaryOperator" and n.get("op") in ("+", "-")) \
+                        or (k_ in ("CXXReinterpretCastExpr", "CXXStaticCastExpr", "CStyleCastExpr", "CXXConstCastExpr", "CXXFunctionalCastExpr") and kids(n)):
+                    n = strip(kids(n)[0])
+                    continue
+                return None
+            return None
+        self.field_ref = _aliased
         for x in walk(b):
             k = x.get("k")
             if k in ("CallExpr", "CXXMemberCallExpr"):
@@ -348,12 +378,23 @@ class KState:
                     ev.append((x["l"][1], "escape", r, x, m.get("rtype", "")))
                     for y in walk(x):
                         consumed.add(id(y))
+        decl_inits = set()
+        for v in walk(b):
+            if v.get("k") == "VarDecl" and v.get("did") in alias:
+                for y in walk(v):
+                    decl_inits.add(id(y))
         for x in walk(b):
-            if x.get("k") in ("MemberExpr", "CXXDependentScopeMemberExpr") and x.get("name") in ptrish and id(x) not in consumed:
+            if x.get("k") in ("MemberExpr", "CXXDependentScopeMemberExpr") and x.get("name") in ptrish and id(x) not in consumed and id(x) not in decl_inits:
                 bb = kids(x)
                 if bb and strip(bb[0]).get("k") != "CXXThisExpr":
                     continue
                 # a remaining mention: read of the buffer (argument of another call, subscripted read)
                 ev.append((x["l"][1], "read", x["name"], x, "mention"))
+            if x.get("k") == "DeclRefExpr" and x.get("did") in alias and id(x) not in consumed:
+                ev.append((x["l"][1], "read", alias[x["did"]], x, "mention through the local '%s'" % x.get("name")))
+        try:
+            del self.field_ref          # back to the class's static lookup
+        except AttributeError:
+            pass
         ev.sort(key=lambda e: (e[0], {"wcall": 0, "wpart": 1, "read": 2, "exec-in": 3, "exec-out": 4, "escape": 5}[e[1]]))
         return ev
